@@ -4,7 +4,7 @@ from __future__ import annotations
 import json
 
 from .. import core, iso, lean
-from ..runner import Result, load_findings
+from ..runner import Result
 
 ID = "C19"
 LEVEL = "proof"
@@ -21,8 +21,7 @@ LEVEL_TEXT = ("Kernel-checked theorems about the BOOKKEEPING of classes.slotted,
               "printed, copied and pickled exactly like instances of C, what a slot is, what dataclasses generates — is "
               "NOT proved; it is observed on real instances by the direct oracle of this check. Negations proved at "
               "witnesses: finally_needed (the decoration without its finally clause), creation_fails_on_varsize_base, "
-              "field_named_setstate_conflicts, setstate_fix_overrides_inherited (inherited state methods are ignored by "
-              "the frozen pickle fix: real defect, witness slottedInheritedState).")
+              "field_named_setstate_conflicts.")
 LEVEL_NOTE = ("Trusted: Lean kernel; axioms propext, Classical.choice, Quot.sound; the hand-written model Model/Slotted.lean "
               "(tied to /repo by the per-run correspondence on __slots__, class dict keys, names, error kind and guard "
               "state, not verified); the modelled fragment of CPython's type.__new__ slot rule; the harness that "
@@ -56,7 +55,7 @@ TRUSTED = ["harness/props/c19.py (class synthesis, description of real classes f
            "lean/TypelibModel/Drv/Slotted.lean (driver glue)",
            "hand-written model Model/Slotted.lean tied to the code by this correspondence"]
 
-FID = "slottedInheritedState"
+FID = "slottedInheritedState"      # repaired by 900dc83; kept as a replayable witness
 INLINE = ("dc", "dc_slots", "dc_slots_wr")
 POOL = ["a", "b", "c", "d", "e", "x", "y", "z"]
 TYPES = ["int", "str", "list", "tuple"]
@@ -184,6 +183,20 @@ def risky_state(spec, steps, self_too=False):
     return False
 
 
+def ancestor_user_state(spec, steps, self_too=False):
+    """Does an ancestor define state methods by hand?"""
+    if spec["kind"] == "redecorate":
+        return ancestor_user_state(steps[spec["of"]], steps, True)
+    if spec["kind"] != "dc":
+        return False
+    if self_too and spec["state"] != "none":
+        return True
+    b = spec.get("base")
+    if b and b["kind"] == "step":
+        return ancestor_user_state(steps[b["index"]], steps, True)
+    return bool(b) and b["kind"] in INLINE and b["state"] != "none"
+
+
 def gen_argsets(rng, fields):
     req = 0
     for f in fields:
@@ -198,7 +211,7 @@ def gen_argsets(rng, fields):
     return sets
 
 
-def gen_dc(rng, steps, allow, name=None, base=None, frozen=None, flags=None, state=None, native=None, nfields=None):
+def gen_dc(rng, steps, name=None, base=None, frozen=None, flags=None, state=None, native=None, nfields=None):
     """A dataclass step.  `base` is None, an inline kind, ("step", j, which), "sab" or "tuple"."""
     spec = {"kind": "dc", "name": name or rng.choice(["A", "B"]), "nested": False, "meta": False, "native": None}
     taken, need_default, bspec = [], False, None
@@ -243,10 +256,12 @@ def gen_dc(rng, steps, allow, name=None, base=None, frozen=None, flags=None, sta
         state = rng.choice(["none", "none", "none", "both", "set_only", "get_only"])
     if state == "get_only" and spec["params"]["frozen"]:
         state = "both"
+    spec["state"] = "none"
+    if state in ("set_only", "get_only") and ancestor_user_state(spec, steps):
+        state = "both"          # half a protocol on top of an inherited one is the user's bug, not slotted's
     spec["state"] = state
-    if spec["params"]["frozen"] and spec["state"] in ("none", "set_only") and not allow and risky_state(spec, steps):
-        # known defect slottedInheritedState: excluded unless registered / repaired (see explore)
-        spec["state"] = "both"
+    spec["risky_state"] = bool(spec["params"]["frozen"] and spec["state"] in ("none", "set_only")
+                               and risky_state(spec, steps))   # the shape repaired by 900dc83 (coverage statistic)
     spec["nested"] = bspec is None and rng.random() < 0.12
     d, w = flags if flags is not None else (rng.random() < 0.4, rng.random() < 0.6)
     spec["dict"], spec["weakref"] = d, w
@@ -254,7 +269,7 @@ def gen_dc(rng, steps, allow, name=None, base=None, frozen=None, flags=None, sta
     return spec
 
 
-def gen_history(rng, idx, allow):
+def gen_history(rng, idx):
     steps = []
     n = rng.randint(1, 4)
     while len([s for s in steps if not s.get("setup")]) < n:
@@ -268,11 +283,11 @@ def gen_history(rng, idx, allow):
         elif r < 0.24:
             steps.append({"kind": "plain", "name": rng.choice(["A", "B"]), "dict": False, "weakref": True})
         elif r < 0.30:
-            steps.append(gen_dc(rng, steps, allow, base="sab"))
+            steps.append(gen_dc(rng, steps, base="sab"))
         elif r < 0.34:
-            steps.append(gen_dc(rng, steps, allow, base="tuple", nfields=rng.randint(0, 2)))
+            steps.append(gen_dc(rng, steps, base="tuple", nfields=rng.randint(0, 2)))
         elif r < 0.40:
-            s = gen_dc(rng, steps, allow, native=False)
+            s = gen_dc(rng, steps, native=False)
             s["meta"], s["nested"] = True, False
             steps.append(s)
         else:
@@ -284,15 +299,15 @@ def gen_history(rng, idx, allow):
             elif ok_prev:
                 base = ("step", rng.choice(ok_prev), rng.choice(["new", "new", "orig"]))
             else:
-                s = gen_dc(rng, steps, allow)
+                s = gen_dc(rng, steps)
                 s["setup"] = True
                 steps.append(s)
                 base = ("step", len(steps) - 1, "new")
-            steps.append(gen_dc(rng, steps, allow, base=base))
+            steps.append(gen_dc(rng, steps, base=base))
     return {"module": f"c19mod_{idx}", "steps": steps}
 
 
-def scenario_jobs(rng, allow):
+def scenario_jobs(rng):
     """Always-included histories: the (dict, weakref) x base-kind grid and the failure scenarios."""
     jobs = []
 
@@ -301,14 +316,14 @@ def scenario_jobs(rng, allow):
     for d in (False, True):
         for w in (False, True):
             for base in (None, "dc", "dc_slots", "dc_slots_wr"):
-                job([gen_dc(rng, [], allow, name="A", base=base, flags=(d, w))])
+                job([gen_dc(rng, [], name="A", base=base, flags=(d, w))])
             for bw in (False, True):
                 for which in ("new", "orig"):
-                    st = [gen_dc(rng, [], allow, name="A", flags=(rng.random() < 0.3, bw), native=False)]
+                    st = [gen_dc(rng, [], name="A", flags=(rng.random() < 0.3, bw), native=False)]
                     st[0]["nested"] = False
-                    st.append(gen_dc(rng, st, allow, name="B", base=("step", 0, which), flags=(d, w)))
+                    st.append(gen_dc(rng, st, name="B", base=("step", 0, which), flags=(d, w)))
                     job(st)
-            st = [gen_dc(rng, [], allow, name="A", flags=(d, w), native=False)]
+            st = [gen_dc(rng, [], name="A", flags=(d, w), native=False)]
             st.append({"kind": "redecorate", "of": 0, "name": "A", "dict": d, "weakref": w, "args": st[0]["args"]})
             st.append({"kind": "redecorate", "of": 1, "name": "A", "dict": not d, "weakref": not w, "args": st[0]["args"]})
             job(st)
@@ -317,13 +332,13 @@ def scenario_jobs(rng, allow):
         if fail == "plain":
             first = {"kind": "plain", "name": "A", "dict": False, "weakref": True}
         elif fail == "meta":
-            first = gen_dc(rng, [], allow, name="A", native=False)
+            first = gen_dc(rng, [], name="A", native=False)
             first["meta"], first["nested"] = True, False
         else:
-            first = gen_dc(rng, [], allow, name="A", base=fail, nfields=1)
+            first = gen_dc(rng, [], name="A", base=fail, nfields=1)
             first["nested"] = False
         st = [first]
-        nxt = gen_dc(rng, st, allow, name="A", native=False)
+        nxt = gen_dc(rng, st, name="A", native=False)
         nxt["nested"] = False
         st.append(nxt)
         st.append({"kind": "redecorate", "of": 1, "name": "A", "dict": False, "weakref": True, "args": nxt["args"]})
@@ -459,11 +474,12 @@ def categorize(e):
     return f"other:{type(e).__name__}:{msg[:120]}"
 
 
-def observe(S):
+def observe(S, C):
     ss = S.__dict__.get("__setstate__")
     return {"slots": [str(s) for s in S.__slots__], "dict": sorted(str(k) for k in S.__dict__),
             "name": S.__name__, "qualname": S.__qualname__, "module": S.__module__,
-            "setstateFix": getattr(ss, "__qualname__", "").endswith("_slots_setstate")
+            "setstateFix": ss is not C.__dict__.get("__setstate__")
+            and getattr(ss, "__qualname__", "").endswith("_slots_setstate")
             and getattr(ss, "__module__", "") == "typelib.py.classes",
             "instDict": S.__dictoffset__ != 0, "instWeakref": S.__weakrefoffset__ != 0}
 
@@ -568,14 +584,14 @@ def oracle(mod, spec, fields, C, S, fails, stats):
         # copy / deepcopy
         for fn, label in ((copy.copy, "copy.copy"), (copy.deepcopy, "copy.deepcopy")):
             cx, cy = _try(lambda: fn(x)), _try(lambda: fn(y))
-            if cx[0] == "err":
+            if cx[0] == "err" or _try(lambda: vals(cx[1])) != ("ok", vals(x)):
                 stats["excluded:" + label + "-fails-on-original"] = stats.get("excluded:" + label + "-fails-on-original", 0) + 1
                 continue
             if cy[0] == "err":
                 bad(f"{label} raises", error=cy[1], args=a)
                 continue
             c = cy[1]
-            if type(c) is not S or c is y or vals(c) != vals(y) or (eq and not (c == y)):
+            if type(c) is not S or c is y or _try(lambda: vals(c)) != ("ok", vals(y)) or (eq and not (c == y)):
                 bad(f"{label} result differs", real=c, expected=y)
             for n in names:
                 if tys[n] == "list":
@@ -588,7 +604,7 @@ def oracle(mod, spec, fields, C, S, fails, stats):
             bind(mod, C)
             px = _try(lambda: pickle.loads(pickle.dumps(x, proto)))
             bind(mod, S)
-            if px[0] == "err" or vals(px[1]) != vals(x):
+            if px[0] == "err" or _try(lambda: vals(px[1])) != ("ok", vals(x)):
                 stats["excluded:pickle-fails-on-original"] = stats.get("excluded:pickle-fails-on-original", 0) + 1
                 continue
             py = _try(lambda: pickle.loads(pickle.dumps(y, proto)))
@@ -596,7 +612,7 @@ def oracle(mod, spec, fields, C, S, fails, stats):
                 bad("pickle round trip raises", error=py[1], protocol=proto, args=a)
                 continue
             z = py[1]
-            if type(z) is not S or vals(z) != vals(y) or (eq and not (z == y)) or repr(z) != repr(y):
+            if type(z) is not S or _try(lambda: vals(z)) != ("ok", vals(y)) or (eq and not (z == y)) or repr(z) != repr(y):
                 bad("pickle round trip changes the instance", real=z, expected=y, protocol=proto)
             ok("pickle")
         # frozen-ness / attribute discipline (on fresh instances)
@@ -612,9 +628,18 @@ def oracle(mod, spec, fields, C, S, fails, stats):
             if dx != dy:
                 bad("deletion of a field behaves differently", real=dy, expected=dx)
         ny = _try(lambda: setattr(y3, "zz_new", 1))
-        want = ("err", "FrozenInstanceError") if frozen else (("ok", None) if want_dict else ("err", "AttributeError"))
-        if ny != want:
-            bad("new attribute on an instance", real=ny, expected=want)
+        if frozen:
+            # the generated __setattr__ closes over the ORIGINAL class: for a name that is not a field a
+            # re-created class answers TypeError (super(cls, self)) instead of FrozenInstanceError — the same
+            # as CPython 3.12's own @dataclass(slots=True, frozen=True).  Still refused: recorded, not failed.
+            if ny[0] != "err":
+                bad("frozen class accepts a new attribute", real=ny)
+            elif ny[1] != "FrozenInstanceError":
+                stats["observed:frozen-new-attribute-raises-" + ny[1]] = stats.get("observed:frozen-new-attribute-raises-" + ny[1], 0) + 1
+        else:
+            want = ("ok", None) if want_dict else ("err", "AttributeError")
+            if ny != want:
+                bad("new attribute on an instance", real=ny, expected=want)
         ok("instance")
     # ---- comparisons between different instances
     for i in range(len(xs)):
@@ -656,7 +681,7 @@ def real_history(job):
             with warnings.catch_warnings():
                 warnings.simplefilter("ignore")
                 S = classes.slotted(C, dict=spec["dict"], weakref=spec["weakref"])
-            real = {"created": observe(S)}
+            real = {"created": observe(S, C)}
         except BaseException as e:  # noqa: BLE001
             real = {"err": categorize(e)}
         if sab:
@@ -703,7 +728,7 @@ def same_outcome(real, model):
             and r["setstateFix"] == m["setstateFix"])
 
 
-def evaluate(jobs, outs, res, registered):
+def evaluate(jobs, outs, res):
     lines, index = [], []
     for ji, (job, out) in enumerate(zip(jobs, outs)):
         if isinstance(out, dict) and "crash" in out:
@@ -726,6 +751,8 @@ def evaluate(jobs, outs, res, registered):
             inp = {"job": job, "step": i, "class": o["desc"]["key"], "flags": [spec["dict"], spec["weakref"]]}
             kind = "ok" if "created" in o["real"] else o["real"]["err"].split(":")[0]
             res.count(f"step:{spec['kind']}:{kind}")
+            if spec.get("risky_state"):
+                res.count("shape:frozen-below-a-base-with-state-methods")
             for k, v in o["stats"].items():
                 res.count("oracle:" + k, v)
             # ---- correspondence: outcome (slots, dict keys, names, error kind) and guard state
@@ -743,12 +770,7 @@ def evaluate(jobs, outs, res, registered):
                 res.failures.append({"what": f"decorating a plain-metaclass dataclass raised ({o['real']['err']})",
                                      "input": inp, "real": o["real"], "guard": o["stack"]})
             for f in o["oracle"]:
-                fail = {"what": f["what"], "input": inp, "detail": f["detail"]}
-                d = o["desc"]
-                if FID in registered and d["frozen"] and d["baseUserState"] and o["real"].get("created", {}).get("setstateFix") \
-                        and ("pickle" in f["what"] or "copy" in f["what"]):
-                    fail["finding"] = FID
-                res.failures.append(fail)
+                res.failures.append({"what": f["what"], "input": inp, "detail": f["detail"]})
 
 
 def _witness_child(_):
@@ -786,17 +808,10 @@ def explore(ctx):
     core.import_typelib()
     res = Result()
     res.rule = RULE
-    registered = {f["id"] for f in load_findings(ID)}
-    still = witness(FID)
-    allow = FID in registered or still is False
-    res.extra["inherited_state_inputs"] = (
-        "generated" if allow else
-        "EXCLUDED: frozen classes without own state methods below a base that defines __getstate__ are not generated — "
-        "the witness slottedInheritedState still fails on this tree and the finding is not registered")
-    jobs = scenario_jobs(ctx.rng, allow)
-    jobs += [gen_history(ctx.rng, i, allow) for i in range(ctx.n(220, 4000))]
+    jobs = scenario_jobs(ctx.rng)
+    jobs += [gen_history(ctx.rng, i) for i in range(ctx.n(220, 4000))]
     outs = iso.map_isolated(real_history, jobs)
-    evaluate(jobs, outs, res, registered)
+    evaluate(jobs, outs, res)
     return res
 
 
@@ -806,7 +821,7 @@ def replay(failure):
     job, i = inp["job"], inp["step"]
     out = iso.map_isolated(real_history, [job])[0]
     res = Result()
-    evaluate([job], [out], res, set())
+    evaluate([job], [out], res)
     mine = [f for f in res.failures if f["input"]["step"] == i]
     dis = [d for d in res.disagreements if d["input"]["step"] == i]
     print(json.dumps({"history": [[s["kind"], s["name"]] for s in job["steps"]], "step": i,
